@@ -13,10 +13,18 @@ Sources   == {"caller", "generated"}
 Responses == {"genuine",         \* the chip's signature over the challenge on the wire
               "other-challenge", \* a valid signature by the DG15 key over ANOTHER challenge (replayed)
               "other-key",       \* a valid signature over the challenge by another key
-              "invalid"}         \* not a signature at all (mutated / truncated / wrong trailer)
+              "invalid",         \* not a signature at all (mutated / truncated / wrong trailer)
+              "error-first"}     \* the first INTERNAL AUTHENTICATE is answered with an error status (a transient fault);
+                                 \* a repeated command - if the terminal sends one - is answered genuinely
 Offline   == {"none", "same", "different"}   \* challenge supplied to offline verification
 
-VARIABLES source, response, offline, wire, recorded, live, off
+\* RetryFresh: the design that repeats a failed INTERNAL AUTHENTICATE once "with a fresh challenge, because a
+\* challenge must never be sent twice" (as built there is no retry)
+CONSTANT RetryFresh
+
+VARIABLES source, response, offline,
+          wire,      \* the SET of challenges transmitted in INTERNAL AUTHENTICATE commands
+          recorded, live, off
 
 vars == << source, response, offline, wire, recorded, live, off >>
 
@@ -30,26 +38,39 @@ ValidFor(resp, onWire) == CASE resp = "genuine" -> onWire
                             [] OTHER -> "nothing"
 
 Init == /\ source \in Sources /\ response \in Responses /\ offline \in Offline
-        /\ wire = "none" /\ recorded = "none" /\ live = "none" /\ off = "none"
+        /\ wire = {} /\ recorded = "none" /\ live = "none" /\ off = "none"
 
-Run == /\ live = "none"
+\* the first command is answered with an error status
+RunError == /\ live = "none" /\ response = "error-first"
+            /\ LET c == IF source = "caller" THEN Supplied ELSE Generated IN
+               IF RetryFresh
+               THEN /\ wire' = {c, Generated}             \* the repeated command carries a library-generated value
+                    /\ recorded' = Generated /\ live' = "success"
+                    /\ off' = IF offline = "different" \/ (offline = "same" /\ c # Generated) THEN "hard-error" ELSE "success"
+               ELSE /\ wire' = {c} /\ recorded' = "none"   \* no result, no evidence
+                    /\ live' = "failure" /\ off' = "none"
+            /\ UNCHANGED << source, response, offline >>
+
+Run == /\ live = "none" /\ response # "error-first"
        /\ LET c == IF source = "caller" THEN Supplied ELSE Generated IN
-          /\ wire' = c                                   \* INTERNAL AUTHENTICATE carries c
+          /\ wire' = {c}                                 \* INTERNAL AUTHENTICATE carries c
           /\ recorded' = c                               \* the evidence records c
           /\ live' = IF ValidFor(response, c) = c THEN "success" ELSE "failure"
           /\ off' = LET given == CASE offline = "none" -> "none" [] offline = "same" -> c [] offline = "different" -> Other IN
                     IF given # "none" /\ given # c THEN "hard-error"
                     ELSE IF ValidFor(response, c) = c THEN "success" ELSE "failure"
        /\ UNCHANGED << source, response, offline >>
-Next == Run \/ (live # "none" /\ UNCHANGED vars)
+Next == Run \/ RunError \/ (live # "none" /\ UNCHANGED vars)
 
 Done == live # "none"
 \* a caller-supplied challenge is the one transmitted and recorded
-Plumbing == (Done /\ source = "caller") => (wire = Supplied /\ recorded = Supplied)
+\* (EVERY command of the call carries it; nothing else is ever recorded)
+Plumbing == (Done /\ source = "caller") => (wire = {Supplied} /\ recorded \in {Supplied, "none"})
+Recorded == (Done /\ response # "error-first") => recorded \in wire
 \* accepted exactly when the response is a valid signature over the challenge that was sent
 Exact == Done => ((live = "success") <=> (response = "genuine"))
 \* offline verification with a supplied challenge hard-fails when the recorded nonce differs
-HardFail == (Done /\ offline = "different") => off = "hard-error"
+HardFail == (Done /\ offline = "different" /\ recorded # "none") => off = "hard-error"
 \* otherwise offline reproduces the live verdict
-Reproduces == (Done /\ offline # "different") => off = live
+Reproduces == (Done /\ offline # "different" /\ recorded # "none") => off = live
 =============================================================================
